@@ -14,7 +14,7 @@ def classify(case, kind):
 
 
 def gen(ctx):
-    res = gen_c17.generate(vlib.REPO, vlib.VERIF)
+    res = gen_c17.generate(vlib.REPO, vlib.gen_root())
     ctx.coverage["scanner"] = {
         "rust_files_scanned": res["n_files"],
         "iteration_sites": len(res["sites"]),
